@@ -294,7 +294,9 @@ pub fn deviations() -> Vec<(String, Vec<Value>)> {
     add("/request/method", vec![Value::Null, json!(""), json!("get"), json!("𝄞"), json!("POST"), json!("PUT")]);
     add("/request/headers", vec![json!([]), json!([["", ""]]), json!([["X-Foo", "v-1f"], ["x-foo", "v-zz"], ["X-FOO", ""]]), json!([["X-Foo", big(70000, 'f')], ["User-Agent", "ua"]]),
         json!([["x-foo", "v-1f"], ["user-agent", "ua"], ["X-Forwarded-For", ",,,garbage, ::1,10.0.0.300"], ["Forwarded", "for=;;=;for=\"[::1]:80\",for"], ["Host", "evil"]]),
-        json!([["X-Foo", "v-é"], ["User-Agent", "𝄞"]])]);
+        json!([["X-Foo", "v-é"], ["User-Agent", "𝄞"]]),
+        json!([["X-Foo", "v-1f"], ["User-Agent", "ua"], ["Forwarded", "for=\""], ["forwarded", "by=x, for = \" , for=1.2.3.4"], ["Forwarded", "for=\";proto=https"], ["X-Forwarded-For", "\""]]),
+        json!([["X-Foo", "v-1f"], ["User-Agent", "ua"], ["Forwarded", "="], ["Forwarded", "for"], ["Forwarded", "for=\"\""], ["Forwarded", ";;;,,,"], ["X-Forwarded-For", ""]])]);
     add("/request/ip", vec![Value::Null, json!("::1"), json!("192.168.1.1"), json!("10.255.255.255"), json!("::ffff:10.0.0.1")]);
     add("/request/time", vec![Value::Null, json!("1970-01-01T00:00:00Z"), json!("2030-01-01T00:00:00Z"), json!("2029-12-31T23:59:59.999999999Z")]);
     add("/request/sampling_override", vec![json!(true), json!(false)]);
